@@ -26,6 +26,12 @@ Facet 6 (FirstObservable).  After `obj.<parameter> = value` the first observable
   order: TLC enumerates the orders (FoUsesCurrent; deviation sync_in_density_only refuted), the replay drives them on the objects of
   the Reassign cases; every sample is judged by the facet-1 / facet-2 observer against the case of the assignments made so far and
   nothing is evaluated that the behaviour does not contain (signatures <observer signature>/firstobs=<walk>/at=<k>/assigned=<names>).
+Facet 7 (Counts).  The sample count N across the block sizes B an implementation may work with internally: TLC explores the block
+  loop CountBlock / CountFinish for representative x N in {1, 2, 3, 999, 1000, 1001, 2047, 2500} x B in {1000, 1024} (ColumnsIndependent:
+  the column map of the result is the identity; deviation last_block_skipped refuted) and emits representative, N, column map and the
+  rule of the scripted noise; the replay makes ONE sample(N) call with noise column j = w_j e_((j-1) mod M) (weights pairwise distinct,
+  some zero) per object / N / generator given or none and checks column j = mean + w_j L[:, (j-1) mod M] against the object's OWN mean
+  and L (read off with N = 3 as in facet 1); univariate families by the wiring table (signatures counts/<observer signature>).
 Facet 3 (streams).  TLC explores the stream state machine and emits behaviours; each is executed on real
   distributions with real RandomState / Generator objects: global state digests before/after, equal generator
   states => equal draws, return types, conditional distributions refuse.
@@ -59,12 +65,20 @@ META = {
              "sync_in_density_only refuted): after a public setter ANY observable may be used first - every emitted order of assignments "
              "and observables is driven on the objects of the Reassign cases (univariate families, Gaussian, Lognormal, GMRF) and every "
              "sample is read off affinely / by the wiring table against the case of the assignments made so far WITHOUT evaluating a "
-             "density unless the behaviour contains it."),
+             "density unless the behaviour contains it. "
+             "Facet 7 (Counts: block loop CountBlock / CountFinish over representative x sample count N x internal block size B, invariant "
+             "ColumnsIndependent = every column j of the result is the image of its OWN noise column j, deviation last_block_skipped "
+             "refuted): sample(N) for N in {1, 2, 3, 999, 1000, 1001, 2047, 2500} (thorough: also 499-501, 1024, 1025, 2048, 3001) on one "
+             "Gaussian per input form x shape x triangle x storage format, Lognormal, one GMRF per boundary condition x order in 1-D and "
+             "2-D, one object per univariate family (thorough: every configuration of facets 1 and 2), generator given and none: ONE call "
+             "with scripted noise column j = w_j e_((j-1) mod M) (weights pairwise distinct, some zero; rule emitted by the spec) must give "
+             "column j = mean + w_j L[:, (j-1) mod M] for the object's OWN mean and L (read off with N = 3), univariate families entry "
+             "(i, j) = transformed base value (j, i) of one base request of size (N, dim)."),
     "note": ("No statistics: the law of numpy/scipy base generators is trusted; ModifiedHalfNormal acceptance envelopes "
              "are not modelled (parameter wiring and stream behaviour only). Bounded sizes (Gaussian dim <= 3 with "
              "MIN_DIM_SPARSE lowered to 2, plus diagonal forms at the real threshold 75/76; structure x format lattice in dim 4 (and 3) "
              "with MIN_DIM_SPARSE = dim / dim - 1; GMRF n <= 6/8 in 1-D, "
-             "n <= 3/4 in 2-D). Support of numpy Generator objects and of 2-D periodic sampling is not documented and "
+             "n <= 3/4 in 2-D; sample counts up to 2500 / 3001 on small dimensions). Support of numpy Generator objects and of 2-D periodic sampling is not documented and "
              "only observed."),
     "technique": ("TLA+ spec (Sampling, extending DiffOps) model-checked with TLC; emitted cases and behaviours replayed "
                   "into cuqi.distribution.*.sample with scripted stub generators and real generators"),
@@ -1604,6 +1618,269 @@ def run_firstobs(ctx, recases, walks, thorough):
     return sum(done.values())
 
 
+# ----------------------------------------------------------------------------------------------- facet 7 (Counts)
+COUNT_LARGE = 900       # "large" N for the vacuity guard: above every small-N facet, around / above the block sizes of the spec
+
+
+def _count_small(x):
+    """big arrays of a mismatch record -> shape and first columns (the evidence names the bad columns separately)"""
+    if isinstance(x, dict):
+        return {k: _count_small(v) for k, v in x.items()}
+    if isinstance(x, np.ndarray) and x.size > 64:
+        return {"shape": list(x.shape), "first_columns": x[..., :4] if x.ndim == 2 else x[:8]}
+    return x
+
+
+class CountProxy:
+    """Run context seen by the facet-1 / facet-2 observers while they work for the Counts facet: signatures become
+    counts/<signature of the observer>, the stored case is the compact emitted case, big arrays are summarised.
+    silent: mismatches are only collected (the small-N read-off that establishes the object's own mean and L repeats what
+    facet 1 judges and reports on the same configuration)."""
+
+    def __init__(self, ctx, case, sub, silent=False):
+        self._ctx, self._case, self._sub, self._silent = ctx, case, sub, silent
+        self.failed = []
+
+    def mismatch(self, signature, case, what, expected=None, observed=None, detail=None):
+        if self._silent:
+            self.failed.append(signature)
+            return False
+        return self._ctx.mismatch("counts/" + signature, self._case, what, _count_small(expected), _count_small(observed), detail)
+
+    def case(self, key, nontrivial=True, facet=None):
+        return self._ctx.case(("counts", key), nontrivial, "counts_" + self._sub)
+
+    def __getattr__(self, name):
+        return getattr(self._ctx, name)
+
+
+def count_weights(cc):
+    """weights w_j of the scripted noise columns j = 1..N by the rule the specification emits (CountWNum / CountWDen); the
+    emitted probe values tie this vectorised copy of the rule to the specification's."""
+    nz, N = cc["noise"], cc["N"]
+    j = np.arange(1, N + 1)
+    num = np.where(j % nz["zmod"] == nz["zres"], 0, np.where(j % 2 == 0, -1, 1) * (nz["den"] + j))
+    for jj, nn in nz["probe"]:
+        if not (1 <= jj <= N) or int(num[jj - 1]) != int(nn):
+            machinery("facet 7: the replay's weight rule disagrees with the specification at column %r (%r)" % (jj, nn))
+    nzw = num[num != 0]
+    if len(set(nzw.tolist())) != len(nzw):
+        machinery("facet 7: noise weights not pairwise distinct")
+    return num / float(nz["den"])
+
+
+def count_identity(cc):
+    """the expected column map of the specification must be the identity on 1..N (the only map the replay knows to judge)"""
+    N = cc["N"]
+    src = np.zeros(N, dtype=int)
+    for seg in cc["colmap"]:
+        if seg["src"] == "own":
+            src[seg["lo"] - 1:seg["hi"]] = np.arange(seg["lo"], seg["hi"] + 1)
+    if not np.array_equal(src, np.arange(1, N + 1)):
+        machinery("facet 7: the specification emitted a column map that is not the identity for N=%d: %r" % (N, cc["colmap"]))
+
+
+def count_affine(ctx, ccs, dist, sig0, sub, label, transform, tol, done, prec=None):
+    """Gaussian-type object x every emitted N x generator given / none.  The object's OWN mean and L are read off with N = 3
+    (unit-vector draws, exactly the observation of facet 1, which judges them against the precision); then per N ONE call with
+    all noise zero and ONE call with noise column j = w_j e_((j-1) mod M): column j of the result must be mean + w_j L[:, (j-1) mod M]."""
+    from cuqiverif.script_rng import ScriptError
+    from cuqiverif.core import MachineryError
+    for use_global in (False, True):
+        mode = "/rng=none" if use_global else ""
+        silent = CountProxy(ctx, ccs[0], sub, silent=True)
+        try:
+            got = read_affine(silent, sig0 + "/N=3" + mode, ccs[0], dist, 3, transform, tol=tol, use_global=use_global)
+        except NotImplementedError as e:
+            ctx.observations.setdefault("counts_sampling_not_implemented", {})[sig0] = str(e)[:100]
+            return
+        if got is None:
+            ctx.observations.setdefault("counts_skipped_small_N_readoff_failed", {})[sig0 + mode] = silent.failed[:2]
+            continue
+        mean_obs, L = got
+        M = L.shape[1]
+        for cc in sorted(ccs, key=lambda x: x["N"]):
+            N = cc["N"]
+            count_identity(cc)
+            w = count_weights(cc)
+            sg = sig0 + "/N=%d" % N + mode
+            ctx.case(("counts", sg), facet="counts_" + sub)
+            ro = ReadOff(dist, N, transform, use_global)
+
+            def call(blocks):
+                try:
+                    return ro.call(blocks)
+                except (NotImplementedError, ScriptError, MachineryError):
+                    raise
+                except Exception as e:
+                    ctx.mismatch("counts/sample_raises/" + sg, cc, "sample(%d%s) raises: %r" % (N, "" if use_global else ", rng=generator", e))
+                    return None
+            r0 = call(None)
+            if r0 is None:
+                continue
+            s0, reqs = r0
+            if N >= COUNT_LARGE:
+                done[label] = done.get(label, 0) + 1
+            if not check_return(ctx, "counts/return_shape/" + sg, cc, dist, s0, N):
+                continue
+            if sum(m for m, _ in reqs) != M:
+                machinery("facet 7: the sampler requests %r normal rows for N=%d and %d for N=3 (%s)" % ([m for m, _ in reqs], N, M, sg))
+            S0 = ro.matrix(s0)
+            idx = (np.arange(N) % M)
+            Z = np.zeros((M, N))
+            Z[idx, np.arange(N)] = w
+            blocks, k = [], 0
+            for m, _ in reqs:
+                blocks.append(Z[k:k + m, :])
+                k += m
+            r1 = call(blocks)
+            if r1 is None:
+                continue
+            S = ro.matrix(r1[0])
+            if S is None or r1[1] != reqs:
+                ctx.mismatch("counts/return_shape/" + sg, cc, "sample output has not dim x N entries / requests depend on the values", None, np.shape(r1[0]))
+                continue
+            exp0 = mean_obs[:, None] + np.zeros((1, N))
+            exp = mean_obs[:, None] + L[:, idx] * w[None, :]
+            for name, got_, want in (("all noise zero", S0, exp0), ("noise column j = w_j e_((j-1) mod M)", S, exp)):
+                bad = _count_bad_columns(got_, want, tol)
+                if not bad.size:
+                    continue
+                if got_ is S and _count_other_root(ctx, cc, dist, S, mean_obs, L, w, idx, transform, tol, use_global, prec):
+                    # mean + L_N x noise with ANOTHER square root L_N of the same covariance L L^T: the same distribution
+                    ctx.observations.setdefault("counts_other_square_root_at_this_N", {})[sg] = True
+                    continue
+                j0 = int(bad[0])
+                ctx.mismatch("counts/columns/" + sg, cc,
+                             "%d of %d columns of sample(%d) are not mean + L x (their own noise column) [%s]: columns (1-based) %s%s"
+                             % (bad.size, N, N, name, (bad[:8] + 1).tolist(), " ... %d" % (bad[-1] + 1) if bad.size > 8 else ""),
+                             expected={"column": j0 + 1, "weight": float(w[j0]), "noise_row": int(idx[j0]) + 1, "value": want[:, j0]},
+                             observed={"column": j0 + 1, "value": got_[:, j0], "bad_columns": int(bad.size),
+                                       "first_bad": int(bad[0]) + 1, "last_bad": int(bad[-1]) + 1})
+                break
+
+
+def _count_bad_columns(got, want, tol):
+    with np.errstate(invalid="ignore"):
+        lim = tol * max(1.0, np.abs(want).max()) + tol * np.abs(want)
+        badm = ~(np.abs(got - want) <= lim)           # (NaN counts as bad)
+    return np.where(badm.any(axis=0))[0]
+
+
+def _count_other_root(ctx, cc, dist, S, mean_obs, L, w, idx, transform, tol, use_global, prec=None):
+    """Soundness: an implementation may use another square root of the same covariance for another N (e.g. its N = 1 branch).
+    True iff S = mean + L_N x noise column by column for ONE matrix L_N with L_N L_N^T = L L^T (prec: callable returning the
+    precision P of the object's own density when that may be singular - then P L_N L_N^T P = P L L^T P, the covariances agree on
+    the range of P).  L_N is taken from the first non-zero column of every noise row (at least one more column of that row must
+    then agree); for N <= 5 from a read-off at N."""
+    M, N = L.shape[1], len(w)
+    if N <= 5:
+        silent = CountProxy(ctx, cc, cc["sub"], silent=True)
+        try:
+            got = read_affine(silent, "other_root", cc, dist, N, transform, tol=tol, use_global=use_global)
+        except NotImplementedError:
+            return False
+        if got is None:
+            return False
+        LN = got[1]
+        if LN.shape != L.shape:
+            return False
+    else:
+        LN = np.zeros_like(L)
+        for k in range(M):
+            cols = np.where((idx == k) & (w != 0))[0]
+            if cols.size < 2:
+                return False
+            LN[:, k] = (S[:, cols[0]] - mean_obs) / w[cols[0]]
+    if _count_bad_columns(S, mean_obs[:, None] + LN[:, idx] * w[None, :], tol).size:
+        return False
+    C, CN = L @ L.T, LN @ LN.T
+    if prec is not None:
+        with quiet():
+            P = prec()
+        C, CN = P @ C @ P, P @ CN @ P
+    return bool(np.all(np.abs(CN - C) <= 10 * tol * max(1.0, np.abs(C).max())))
+
+
+def count_wiring_full(cc):
+    """compact wiring table of the specification (token rule, per-component affine post-map) -> the complete case of facet 2"""
+    rep = cc["rep"]
+    N, dim = rep["N"], rep["dim"]
+    if N != cc["N"] or rep["rows"] != N or rep["cols"] != dim:
+        machinery("facet 7: inconsistent wiring case emitted")
+    j = np.arange(1, N + 1, dtype=float)[:, None]
+    i = np.arange(1, dim + 1, dtype=float)[None, :]
+    Z = (rep["tok"]["mul"] * j + i) / float(rep["tok"]["den"])            # (N, dim): draw j, component i
+    a = np.array([fr(p[0]) for p in rep["post"]])
+    b = np.array([fr(p[1]) for p in rep["post"]])
+    return dict(rep, Z=Z.tolist(), result=(a[:, None] + b[:, None] * Z.T).tolist())
+
+
+def count_rep_sig(cc):
+    rep = cc["rep"]
+    if cc["sub"] == "gauss":
+        return gauss_sig(rep)
+    if cc["sub"] == "gmrf":
+        return gmrf_key(rep)
+    return "%s/dim=%d/pform=%s/lat=%d" % (rep["family"], rep["dim"], rep["pform"], rep["lat"])
+
+
+def run_counts(ctx, ccases, guard=True):
+    """Facet 7: every emitted (representative, N): Gaussian-type objects by the affine column read-off against the object's own
+    mean and L, univariate families by the wiring table; generator given and none."""
+    import cuqi
+    groups = {}
+    for cc in ccases:
+        groups.setdefault((cc["sub"], count_rep_sig(cc)), []).append(cc)
+    done = {}
+    for (sub, sig0) in sorted(groups):
+        ccs = groups[(sub, sig0)]
+        rep = ccs[0]["rep"]
+        if sub == "gauss":
+            if rep["wrap"] == "lognormal" and rep["mform"] == "scalar" and rep["shape"] == "scalar" and rep["dim"] > 1:
+                continue
+            label = "Lognormal" if rep["wrap"] == "lognormal" else "Gaussian/%s/%s" % (rep["form"], rep["shape"])
+            with min_dim_sparse(2):
+                for fmt, mean_arg, data, kw in gauss_inputs(rep):
+                    try:
+                        with quiet():
+                            dist = build_gauss(rep, mean_arg, data, kw)
+                    except Exception:
+                        continue                # reported by facet 1
+                    count_affine(ctx, ccs, dist, gauss_sig(rep, fmt=fmt), sub, label, np.log if rep["wrap"] == "lognormal" else None, 1e-9, done)
+        elif sub == "gmrf":
+            n = rep["n"]
+            geom = cuqi.geometry.Continuous1D(n) if rep["pd"] == 1 else cuqi.geometry.Image2D((n, n))
+            try:
+                with quiet():
+                    dist = cuqi.distribution.GMRF(np.array(rep["mean"], dtype=float), float(rep["delta"]), bc_type=rep["bc"], order=rep["order"], geometry=geom)
+            except Exception:
+                continue                        # reported by facet 1
+            label = "GMRF/pd=%d/%s/order=%d" % (rep["pd"], rep["bc"], rep["order"])
+            count_affine(ctx, ccs, dist, sig0, sub, label, None, 1e-9 if rep["bc"] == "zero" else 1e-6, done,
+                         prec=lambda dist=dist, rep=rep: own_precision(lambda x: float(np.ravel(dist.logpdf(x))[0]), np.array(rep["mean"], dtype=float), rep["dim"]))
+        else:
+            for cc in sorted(ccs, key=lambda x: x["N"]):
+                count_identity(cc)
+                full = count_wiring_full(cc)
+                p = CountProxy(ctx, cc, sub)
+                run_wiring(p, full)
+                run_wiring(p, full, use_global=True)
+                if cc["N"] >= COUNT_LARGE:
+                    done[rep["family"]] = done.get(rep["family"], 0) + 1
+    if guard:
+        need = ["Lognormal"] + ["Gaussian/%s/%s" % (f, sh) for f in FS_FORMS for sh in ("scalar", "vector", "diag", "spdiag", "dense", "sparse")] \
+            + ["GMRF/pd=1/%s/order=%d" % (bc, o) for bc in ("zero", "periodic", "neumann") for o in (0, 1, 2)] \
+            + ["GMRF/pd=2/%s/order=%d" % (bc, o) for bc in ("zero", "neumann") for o in (0, 1, 2)] \
+            + sorted({cc["rep"]["family"] for cc in ccases if cc["sub"] == "wiring"})
+        missing = [f for f in need if not done.get(f)]
+        if missing or not any(cc["sub"] == "wiring" for cc in ccases):
+            machinery("vacuous: facet 7 replayed no sample count >= %d for %r" % (COUNT_LARGE, missing))
+    ctx.observations["counts"] = {"Ns": sorted({cc["N"] for cc in ccases}), "representatives": len(groups),
+                                  "large_N_calls_per_family": dict(sorted(done.items()))}
+    return len(groups)
+
+
 # ----------------------------------------------------------------------------------------------- facet 3
 def _digest():
     """Value identifying the state of numpy's global random stream (compared for equality before / after a call)."""
@@ -1789,9 +2066,9 @@ def run_streams(ctx, behaviours, per_behaviour, label):
 
 # ------------------------------------------------------------------------------------------------- run
 EXTRA = ("DiffOps.tla",)
-NMAIN = 6         # deciding TLC runs (cases, stream, deep, reassign, siblings, firstobs); the named deviations follow
+NMAIN = 7         # deciding TLC runs (cases, stream, deep, reassign, siblings, firstobs, counts); the named deviations follow
 
-DEVIATIONS = [("Sampling.dev.sync_in_density_only.cfg", "FoUsesCurrent"), ("Sampling.dev.shared_derived.cfg", "SibOwnDraw"), ("Sampling.dev.dia_as_diagonal.cfg", "FsLaw"),
+DEVIATIONS = [("Sampling.dev.last_block_skipped.cfg", "ColumnsIndependent"), ("Sampling.dev.sync_in_density_only.cfg", "FoUsesCurrent"), ("Sampling.dev.shared_derived.cfg", "SibOwnDraw"), ("Sampling.dev.dia_as_diagonal.cfg", "FsLaw"),
               ("Sampling.dev.stale_after_assign.cfg", "ReSampFresh"), ("Sampling.dev.dft_on_noncirculant.cfg", "DftLaw"), ("Sampling.dev.dft_sorted_eigs.cfg", "DftLaw"),
               ("Sampling.dev.lower_as_upper.cfg", "GaussLaw"), ("Sampling.dev.ignores_rng.cfg", "GlobalUntouched"),
               ("Sampling.dev.ignores_rng_det.cfg", "Deterministic")]
@@ -1849,7 +2126,8 @@ def run(ctx):
     devs = [d for d in DEVIATIONS if thorough or d[0] != "Sampling.dev.ignores_rng_det.cfg"]
     jobs = [("Sampling.cases.%s.cfg" % ctx.tier, 8, False, "2g"), ("Sampling.stream.%s.cfg" % ctx.tier, 4, False, "2g"),
             ("Sampling.deep.%s.cfg" % ctx.tier, 2, False, "1g"), ("Sampling.reassign.%s.cfg" % ctx.tier, 4, False, "2g"),
-            ("Sampling.siblings.%s.cfg" % ctx.tier, 2, False, "1g"), ("Sampling.firstobs.%s.cfg" % ctx.tier, 2, False, "1g")] \
+            ("Sampling.siblings.%s.cfg" % ctx.tier, 2, False, "1g"), ("Sampling.firstobs.%s.cfg" % ctx.tier, 2, False, "1g"),
+            ("Sampling.counts.%s.cfg" % ctx.tier, 2, False, "1g")] \
         + [(cfg, 2, True, "1g") for cfg, _ in devs]
     results = tlc_jobs(ctx, jobs)
     try:
@@ -1861,7 +2139,7 @@ def run(ctx):
 
 def _run_with_results(ctx, results, devs, thorough):
     from cuqiverif import tlc as _tlc
-    res, res3, res4, res5, res6, res7 = results[:NMAIN]
+    res, res3, res4, res5, res6, res7, res8 = results[:NMAIN]
     # ---- model checking + case emission (facets 1, 2)
     ctx.model_must_hold(res, "Sampling/cases")
     cases = res.cases
@@ -1940,6 +2218,18 @@ def _run_with_results(ctx, results, devs, thorough):
     if fowalks and recases:
         ctx.traces += run_firstobs(ctx, recases, fowalks, thorough)
     lap("firstobs")
+    # ---- facet 7: sample counts across internal block sizes (every column is the image of its own noise column)
+    ctx.model_must_hold(res8, "Sampling/counts")
+    ccases = [c for c in res8.cases if c.get("kind") == "count"]
+    _tlc.cleanup(res8)
+    if res8.ok and not ccases:
+        machinery("no cases emitted by Sampling (Counts facet)")
+    if ccases:
+        ctx.traces += run_counts(ctx, ccases, guard=res8.ok)
+        cs = [c for c in ccases if c["sub"] == "gmrf" and c["rep"]["bc"] == "zero" and c["rep"]["order"] == 1 and c["rep"]["pd"] == 1 and c["N"] > 1000]
+        if cs:
+            ctx.sample({"count": min(cs, key=lambda c: c["N"])})
+    lap("counts")
     # ---- stream state machine
     ctx.model_must_hold(res3, "Sampling/stream")
     beh = res3.cases
@@ -1974,7 +2264,7 @@ def _run_with_results(ctx, results, devs, thorough):
     ctx.rule = ("cases = every configuration emitted by TLC from Sampling.tla (Gaussian form x shape x triangle x dim x scaling x mean "
                 "form x storage format; Gaussian form x structure x storage format x threshold side; GMRF pd x n x bc x order x delta; "
                 "family x dim x passing x N x lattice), every Reassign behaviour, every Reassign pair x {walk A-O-B-A + rotating walks} of "
-                "the Siblings behaviours and every behaviour of the stream state machine up to the bounded length replayed on rotating "
+                "the Siblings behaviours, every (representative, N) of the Counts facet and every behaviour of the stream state machine up to the bounded length replayed on rotating "
                 "families; distinct non-trivial = distinct (configuration, storage format) resp. (pair, walk, step) resp. (behaviour, "
                 "family) keys")
     ctx.exhaustive = True
@@ -1985,6 +2275,8 @@ def _run_with_results(ctx, results, devs, thorough):
                         "jitter sqrt(eps) of periodic/neumann GMRF factorisations tolerated (1e-6 relative)",
                         "facet 1c: a storage format / structure / threshold side the library refuses (exception at construction, density or "
                         "first sample) is observed, not judged; a covariance / precision is symmetric (no triangular structure)",
+                        "facet 7: the column structure for large N is judged against the object's own mean and L read off with N = 3 (the law of "
+                        "that L is judged by facet 1); a Gaussian-type sampler requests its normal draws as (m, N) arrays also for large N",
                         "facet 5: a conditional construction that does not work for ONE conditioned copy alone (Lognormal with a scalar mean and "
                         "callable covariance, ModifiedHalfNormal, 2-D periodic GMRF) is observed, not judged"]
 
@@ -2007,6 +2299,8 @@ def replay(ctx, case):
             return fo_walk(ctx, {"wiring": FoWiring, "gauss": FoGauss, "gmrf": FoGmrf}[fo["rc"]["sub"]](fo["rc"]), fo["fmt"], fo["ops"])
     if kind == "bigdiag":
         return run_bigdiag(ctx, case)
+    if kind == "count":
+        return run_counts(ctx, [case], guard=False)
     if kind == "gmrf_group":
         return run_gmrf(ctx, case["variants"])
     if kind == "gmrf":
